@@ -6,6 +6,8 @@ field is corrupted, one hook event is removed, or one event is dropped, and the 
 such tampering must be rejected with a verdict of the expected property.  The same is done for the LU component trace
 (TraceFactor).  Result: /verif/evidence/selftest.json; exit 0 iff the clean traces are accepted and every tampered
 trace is rejected."""
+import sys as _sys
+_sys.set_int_max_str_digits(0)      # exact rationals with thousands of digits are ordinary data here
 import copy, json, os, sys, tempfile, shutil
 ROOT = os.path.dirname(os.path.dirname(os.path.abspath(__file__)))
 sys.path[:0] = [os.path.join(ROOT, "lib"), os.path.join(ROOT, "gen")]
